@@ -21,6 +21,35 @@ TRUSTED = c09.TRUSTED + [
     "'falls silent' (the comparison run of others_as_if_silent) is the script action quiet: request shutdown() unless a request is pending, "
     "return, and let the tasks polled in that event end without acting"]
 ASSUMPTIONS = c09.ASSUMPTIONS
+CLAIM = dict(
+    text="Machine-checked (Coq 8.16, axiom-free) for the model of unwind.rs/events.rs/ctx.rs/mod.rs (Harness::exec/catch as: the rest of "
+         "the callback and the yield are skipped, the module is deactivated, a PanicError is recorded unless Stereotyp.on_panic_catch), "
+         "for every script of 2..4 modules with panics anywhere in handle_message / at_sim_start / at_sim_end / tasks, any number of "
+         "panicking modules, both stereotypes: (1) contained: after a callback of m panicked no dispatched event holds any record of m "
+         "(no handler, wake-up, task step, send) until a restart event of m, which exists only if m itself requested "
+         "shutdow_and_restart before it panicked; (2) errors_exact: the PanicError entries of the returned error are exactly the callback "
+         "panics of non-catching modules, one per panic, in the order of the panics (so Ok only if there is none); (3) globals_released: "
+         "after every start-up step and every dispatched event, panicking ones included, the module-context slot is empty and the event "
+         "buffer drained, and the slot is empty after every at_sim_end; (4) others_as_if_silent (partial): for a module m with a single "
+         "start-up stage, every record of every other module during start-up and event dispatch is the same as in the run where m's "
+         "callbacks fall silent (return, request shutdown unless a request is pending, polled tasks end) wherever they panic -- proved "
+         "as a two-phase simulation (equal worlds until the panic; afterwards equal up to events that are inert for a dead m).  Tied to "
+         "des on every invocation by differential runs (panic!() in scripted callbacks and tasks on the real runtime, set_stereotyp, "
+         "RuntimeError contents, is_active samples after every event), each script simulated twice in one process (the second run must "
+         "equal the first: global state stays usable) and, for callback panics, a third time in its falls-silent variant whose other "
+         "modules' logs are compared; the monitor states (1), (2), the second-simulation equality and (4) on the implementation's log.",
+    note="Partial: unwinding itself (that catch_unwind leaves tokio's and Rust's internal state intact, lock poisoning) is not modelled, only "
+         "observed through the second simulation. Panics inside spawned tasks are caught by tokio and reported as JoinErrors by at_sim_end "
+         "(try_join); they do not deactivate the module (the property text says they should; the code does not) -- the claim covers callback "
+         "panics; JoinError entries are only checked by the monitor (each has a panicked task). (4) is FALSE for modules with several "
+         "start-up stages on the pinned code: at_sim_start(stage >= 1) is still called on a module whose stage 0 panicked, polls its tasks, "
+         "and a task can restart the module and send (corpus/C13/multistage_panic.txt, proposed patch fixes/F15.diff); the tear-down "
+         "records of other modules agree only up to the final time stamp (left-over wake-ups of the dead module move the end of the "
+         "simulation) -- checked by the monitor, not proved. at_sim_end is called on panicked modules too. Completion of both runs "
+         "(model fuel) is a hypothesis of (4).",
+    technique="Coq: trace invariants over a step relation (panic => inactive, inactive => no records), error-list bookkeeping, and a "
+              "stuttering two-run simulation with a relational reading of the interpreter; differential correspondence check; log monitor",
+    design="6/C13")
 
 PANICKY = None  # set by gen
 
